@@ -146,9 +146,9 @@ def jobs(tier, seed):
         J.append(dict(name=name, sig=name, module='vq.props.c18', make=make, args=args, budget_s=300 if tier == 'quick' else 1800, timeout_ms=30000))
     for src in O.BOOL_TYPES + O.SPIN_TYPES + ['dict']:
         for which in ('subvalue', 'subgraph'):
-            for fi, fixed in enumerate([[0], [1, 2]]):
+            for fi, fixed in enumerate([[0], [1, 2], [0, 1, 2]]):   # the last one: nothing remains (empty node set / everything substituted)
                 for method in ([False, True] if src != 'dict' else [False]):
-                    if tier == 'quick' and method and fi == 0:
+                    if tier == 'quick' and method and fi != 1:
                         continue
                     add('%s/%s/fixed=%s%s' % (which, src, fixed, '/method' if method else ''), 'make_sub',
                         dict(src=src, which=which, fixed_idx=fixed, method=method, dense=(tier != 'quick')))
